@@ -493,7 +493,14 @@ static void gen_keycfg(int maxhops)
 
 			for (int i = 0; i < n; i++)
 				total *= KC__N;
+			/* three pCount patterns: all 1, all 0 (route-server hops add no AS to the path, but their key must still
+			 * belong to their AS), 0 and 2 alternating */
+			for (int pv = 0; pv < 3; pv++) {
 			path_init(&p, n, afi);
+			for (int k = 0; k < n; k++) {
+				p.hop[k].pcount = pv == 0 ? 1 : pv == 1 ? 0 : (k % 2 ? 2 : 0);
+				p.hop[k].flags = pv == 1 ? 0x80 : 0;
+			}
 			ref_sign_path(&p, KEYIDX);
 			for (long c = 0; c < total; c++) {
 				struct rkeys ks;
@@ -545,15 +552,16 @@ static void gen_keycfg(int maxhops)
 					}
 				}
 				strcat(extra, "]");
-				snprintf(crumb, sizeof(crumb), "{\"gen\":\"keycfg\",\"afi\":%d,\"hops\":%d,\"code\":%ld}", afi, n, c);
+				snprintf(crumb, sizeof(crumb), "{\"gen\":\"keycfg\",\"afi\":%d,\"hops\":%d,\"pcounts\":%d,\"code\":%ld}", afi, n, pv, c);
 				v_crumb("C11|keycfg", crumb);
 				/* the finding key names the configuration class that distinguishes library and reference */
 				bool other_as = strstr(extra, "another-AS") != NULL;
 
 				judge(&p, &ks, other_as ? "keycfg:key-under-another-AS" : "keycfg", extra);
 			}
+			}
 		}
-	vb_printf(&VR.notes, " [keycfg: 8 key-table configurations per hop, all combinations on 1..%d-hop paths, both AFIs]", maxhops);
+	vb_printf(&VR.notes, " [keycfg: 8 key-table configurations per hop, all combinations on 1..%d-hop paths x 3 pCount patterns, both AFIs]", maxhops);
 }
 
 static void flip(uint8_t *base, size_t bit)
